@@ -28,6 +28,21 @@ def oracle(src, blk, rng):
     e = ox.check_edge_kinds(p)
     if e:
         return e
+    # the label an instruction names is carried by a node of the graph whenever the source puts
+    # instructions after it (otherwise the transfer cannot be an edge, whatever the execution does)
+    import re as _re
+    src_lines = src.split("\n")
+    for n in p.nodes:
+        name = n.get("name")
+        if n["kind"] in ("JumpLink", "Branch") and name and name != "__return__" and name not in p.label_at:
+            for k, sl in enumerate(src_lines):
+                if _re.match(r"\s*" + _re.escape(name) + r"\s*:", sl):
+                    rest = sl.split(":", 1)[1:] + src_lines[k + 1:]
+                    if any(_re.match(r"\s*[A-Za-z][\w.]*\s+[\w(-]|\s*(ret|nop|ecall|uret)\b", r_) and
+                           not _re.match(r"\s*\.", r_) and not _re.match(r"\s*\w+\s*:\s*$", r_) for r_ in rest):
+                        return (f"node {n['i']} names the label {name!r}, which the source defines in front of "
+                                f"instructions, but no node of the graph carries it: the transfer is not an edge")
+                    break
     # edges stop at exit ecalls: where the finished facts say a7 is 10 or 93, nothing follows
     facts = ox.Facts(blk)
     for n in p.nodes:
